@@ -14,6 +14,11 @@ CHECKS = {
     technique="TLA+ definition of glob matching (declarative = recursive, checked by TLC on all small pairs); exhaustive small-scope calls of the real matcher and of host-block / virtual-host selection validated as a trace against the spec",
     text="The property text is written twice in HopGlob.tla (declarative: replace each star by a string; recursive oracle) and TLC checks they agree on all pairs up to length 4/4. The real glob.Glob is then called on every pattern over {a,b,*} up to length 4 (thorough 5) against every input over {a,b} up to length 5 (6), on seeded longer pairs, and ClientConfig.MatchHost / VirtualHosts.Match on block lists built from a pattern pool; panics are caught and logged as results; TLC judges every recorded result against the spec (both directions of the iff).",
     note="Trusted: TLC, the Go driver's logging. Exhaustive only within the stated lengths and alphabet; longer inputs are sampled. Case-insensitive matching is not part of the code (option commented out) and not modelled."),
+ "C04": dict(
+    level="model_checking", ref="§3 C04",
+    technique="TLA+ spec of chain validity (declarative ValidChain vs. the code's ordered Decide) checked by TLC on all configurations within K field changes of three valid baselines; every configuration TLC visits is materialised with real keys/signatures and run through the real verifier; bit-flip and issuance traces validated by TLC",
+    text="TLC enumerates every certificate-forest configuration (types, names, half-open validity windows, parent fingerprints, signer keys, store subsets, presented intermediate, requested name, clock) within K=3 (thorough 4) field changes of three valid baselines, checks that the code's ordered procedure accepts exactly the declaratively valid chains, and emits each configuration with the verdict. The harness forges each configuration through the real serialiser and parser with real Ed25519 signatures (three concrete variants per configuration: clock jitter inside a tick, unknown-type byte, zero vs unused fingerprint) and requires Store.VerifyLeaf to accept iff the spec says valid. Every single-bit flip of a verified leaf and intermediate, and the issuing functions at all window boundaries, are recorded and judged by TLC against the same spec.",
+    note="Trusted: TLC, Ed25519/SHA3 primitives, the harness' forge function (uses the repository's WriteTo/ReadFrom). Configurations farther than K changes from a baseline are not enumerated. Root certificates' own self-signature is not part of the property nor of the code's check."),
 }
 
 NOT_YET = {}
